@@ -186,3 +186,58 @@ Definition tp_ok (i : tp_in) (o : tp_out) : bool :=
   out_eqb (snd o) (tp_spec freq tokeninfo feedchain F dest acc) &&
   match snd o with Ok l => strictly_asc (map fst l) | Err => true | _ => false end.
 Definition tp_judge := judge tp_model cf_oeqb tp_ok (fun _ => 0%N).
+
+(* ================= part pplug: commit.Plugin.ValidateObservation + Outcome + Reports, price processors ================= *)
+(* observation: chain-fee part, token-price part, top-level fChain (merkle-root and discovery parts empty)
+   input: (gas write frequency, feeinfo, token write frequency, tokeninfo, feed chain, F, dest, roles, known, observations)
+   output: (verdicts, Ok (outcome gas prices, outcome token prices, (report GasPriceUpdates, report TokenPriceUpdates))) *)
+Definition pplug_obs := (cf_raw * tp_raw * list (N * Z))%type.
+Definition pplug_in :=
+  (Z * list (N * (Z * Z)) * Z * list (N * Z) * N * Z * N * roles_t * list N * list (N * pplug_obs))%type.
+Definition prices := list (N * Z).
+Definition pplug_out := (list bool * res (prices * prices * (prices * prices)))%type.
+
+Definition empty_mobs : obs := mkObs [] [] [] (mkRmn 0 true true [] 0 0 true) [].
+
+Definition pplug_validate (roles : roles_t) (known : list N) (feedchain dest : N) (ao : N * pplug_obs) : bool :=
+  let '(o, (cf, tp, topf)) := ao in
+  forallb (fun e => Z.ltb 0 (snd e)) topf &&
+  validate_obs false roles known dest (o, empty_mobs) &&
+  tp_validate roles known feedchain dest (o, tp) &&
+  cf_validate roles known dest (o, cf).
+
+(* Plugin.Outcome logs and drops a price processor's error: the outcome then carries no prices of that kind *)
+Definition or_nil (r : res prices) : prices := match r with Ok l => l | _ => [] end.
+
+Definition pplug_model (i : pplug_in) : pplug_out :=
+  let '(gfreq, feeinfo, tfreq, tokeninfo, feedchain, F, dest, roles, known, aos) := i in
+  let vs := map (pplug_validate roles known feedchain dest) aos in
+  let acc := select vs aos in
+  let gas := or_nil (cf_outcome gfreq feeinfo F dest (map (fun ao => (fst ao, cf_clean (fst (fst (snd ao))))) acc)) in
+  let tok := or_nil (tp_outcome tfreq tokeninfo feedchain F dest (map (fun ao => (fst ao, tp_clean (snd (fst (snd ao))))) acc)) in
+  (vs, Ok (gas, tok, (gas, tok))).
+
+Definition prices_eqb : prices -> prices -> bool := list_eqb (pair_eqb N.eqb Z.eqb).
+Definition pplug_oeqb (a b : pplug_out) : bool :=
+  list_eqb Bool.eqb (fst a) (fst b) &&
+  res_eqb (pair_eqb (pair_eqb prices_eqb prices_eqb) (pair_eqb prices_eqb prices_eqb)) (snd a) (snd b).
+
+Definition pplug_ok (i : pplug_in) (o : pplug_out) : bool :=
+  let '(gfreq, feeinfo, tfreq, tokeninfo, feedchain, F, dest, roles, known, aos) := i in
+  let vs := map (pplug_validate roles known feedchain dest) aos in
+  let acc := select vs aos in
+  nodupb N.eqb (map fst aos) &&
+  list_eqb Bool.eqb (fst o) vs &&
+  match snd o with
+  | Ok (gas, tok, (rgas, rtok)) =>
+      (* the report carries exactly the outcome's prices, in the outcome's order *)
+      prices_eqb rgas gas && prices_eqb rtok tok &&
+      strictly_asc (map fst gas) && strictly_asc (map fst tok) &&
+      prices_eqb gas (or_nil (cf_spec gfreq feeinfo F dest (map (fun ao => (fst ao, cf_clean (fst (fst (snd ao))))) acc))) &&
+      prices_eqb tok (or_nil (tp_spec tfreq tokeninfo feedchain F dest (map (fun ao => (fst ao, tp_clean (snd (fst (snd ao))))) acc)))
+  | _ => false
+  end.
+Definition pplug_judge := judge pplug_model pplug_oeqb pplug_ok (fun _ => 0%N).
+
+(* typed constructor for the harness output (a case file in which some list is empty in EVERY case must still type-check) *)
+Definition pp_out (gas tok rgas rtok : prices) : res (prices * prices * (prices * prices)) := Ok (gas, tok, (rgas, rtok)).
